@@ -265,7 +265,7 @@ class QuicConn:
 
     def server_hello(self):
         exts = ext(0x002B, b"\x03\x04") + ext(0x0033, struct.pack("!HH", 29, 32) + rbytes(self.rnd, 32))
-        body = b"\x03\x03" + rbytes(self.rnd, 32) + b"\x00" + struct.pack("!H", self.suite) + b"\x00" + struct.pack("!H", len(exts)) + exts
+        body = b"\x03\x03" + rbytes(self.rnd, 32) + b"\x00" + struct.pack("!H", self.spec.get("sh_suite") or self.suite) + b"\x00" + struct.pack("!H", len(exts)) + exts
         return hs(2, body)
 
     def server_hs_flight(self):
